@@ -6,6 +6,7 @@ import (
 
 	"golang.org/x/tools/go/ssa"
 
+	"svcheck/absint"
 	"svcheck/load"
 )
 
@@ -22,8 +23,9 @@ var anchorSigs = map[string]map[string]string{
 		"Square": "(*Element)->(*Element)", "Negate": "(*Element)->(*Element)", "Set": "(*Element)->(*Element)",
 		"One": "()->(*Element)", "Equals": "(*Element)->(uint64)", "IsZero": "()->(uint64)", "Sgn0": "()->(uint64)",
 		"CMove": "(uint64,*Element,*Element)->(*Element)", "SqrtRatio": "(*Element,*Element)->(*Element,uint64)",
-		"Invert": "(Element)->(*Element)", "FromBytesWithReduce": "([32]byte)->(*Element,uint64)", "Bytes": "()->([]byte)",
-		"HashToFieldElement": "([48]byte)->(*Element)",
+		"Invert": "(Element)->(*Element)", "FromBytesWithReduce": "([32]byte)->(*Element,uint64)|(*[32]byte)->(*Element,uint64)|([]byte)->(*Element,uint64)|([32]byte)->(uint64)|(*[32]byte)->(uint64)|([]byte)->(uint64)",
+		"Bytes":              "()->([]byte)|()->([32]byte)",
+		"HashToFieldElement": "([48]byte)->(*Element)|(*[48]byte)->(*Element)|([]byte)->(*Element)|([48]byte)->()|(*[48]byte)->()",
 	},
 	"field.": {"Reduce": "(*NonMontgomeryDomainFieldElement)->(uint64)"},
 	"scalar.": {"Invert": "(*MontgomeryDomainFieldElement,MontgomeryDomainFieldElement)->()"},
@@ -69,7 +71,7 @@ func anchorMethod(p *load.Prog, pkg *ssa.Package, typ, name string) *ssa.Functio
 			if _, other := table[fn.Name()]; other {
 				continue
 			}
-			if sigKey(fn) == want {
+			if sigMatches(want, sigKey(fn)) {
 				cands = append(cands, fn)
 			}
 		}
@@ -78,6 +80,32 @@ func anchorMethod(p *load.Prog, pkg *ssa.Package, typ, name string) *ssa.Functio
 		return cands[0]
 	}
 	return nil
+}
+
+// sigMatches: the anchor's accepted signatures are separated by "|" (the same operation may take its bytes as an
+// array, a pointer to one or a slice, and return the receiver or not).
+func sigMatches(want, got string) bool {
+	for _, w := range strings.Split(want, "|") {
+		if w == got {
+			return true
+		}
+	}
+	return false
+}
+
+// byteParam builds the symbolic byte-string operand name[0..n) in the form parameter i of fn takes it
+// ([n]byte, *[n]byte or []byte).
+func byteParam(it *absint.Interp, fn *ssa.Function, i int, name string, n int) absint.Value {
+	agg := symByteArray(it, name, n).(absint.Agg)
+	if i < len(fn.Params) {
+		switch fn.Params[i].Type().Underlying().(type) {
+		case *types.Pointer:
+			return absint.Ptr{C: agg.C}
+		case *types.Slice:
+			return absint.SliceV{Arr: agg.C, Lo: 0, Len: absint.TInt(int64(n)), Cap: n}
+		}
+	}
+	return agg
 }
 
 // anchorFunc resolves a package-level function anchor of an internal package.
@@ -99,7 +127,7 @@ func anchorFunc(p *load.Prog, pkg *ssa.Package, name string) *ssa.Function {
 		if _, other := table[fn.Name()]; other {
 			continue
 		}
-		if sigKey(fn) == want {
+		if sigMatches(want, sigKey(fn)) {
 			cands = append(cands, fn)
 		}
 	}
